@@ -1,6 +1,5 @@
 import HL.Driver.Util
 import HL.Generated.AccessExpect
-import HL.Spec.Bg
 open Lean HL.Lockset HL.Generated.Access HL.Generated.AccessExpect
 
 namespace HL.Driver.C14
